@@ -220,7 +220,10 @@ impl Property for C15 {
         if any_unencodable { return Outcome::Fail(Failure::new(format!("c15:unencodable-string-accepted:{}", which), format!("game {}: a string with a character that Shift-JIS cannot encode compiled successfully\n{}", game, text.chars().take(2500).collect::<String>()))); }
         if strings.iter().any(|s| s.chars().any(|c| !c.is_ascii_alphanumeric() && c != ' ')) { ctx.nontrivial(); }
 
-        let dec = tx::with_truth(|truth| files::decompile_file(truth, fmt, g, &bytes, &truth::DecompileOptions::new(), &maps).map(|f| {
+        // what the user sees is the printed text: decompile, print, and read the literals back from the text
+        let printed = tx::with_truth(|truth| files::decompile_file(truth, fmt, g, &bytes, &truth::DecompileOptions::new(), &maps).map_err(|_| tx::diags(truth)).and_then(|f| tx::format_at(&f, 100)));
+        let printed = match printed { Ok(t) => t, Err(d) => return Outcome::Fail(Failure::new(format!("c15:compiled-file-does-not-decompile:{}", which), format!("game {}:\n{}\n--- source:\n{}", game, d.chars().take(1500).collect::<String>(), text.chars().take(2500).collect::<String>()))) };
+        let dec = tx::with_truth(|truth| truth.parse::<ast::ScriptFile>("<decompiled>", printed.as_bytes()).map(|f| f.value).map_err(|e| e.ignore()).map(|f| {
             let mut got = vec![];
             let metas = file_metas(&f);
             if matches!(fmt, Fmt::Msg | Fmt::End) { got = script_string_literals(&f); } else { for m in &metas { meta_strings(m, &mut got); } }
